@@ -695,6 +695,10 @@ func (x *Exec) exitObligations(fr *Frame, st *State, rs []Val, oldSt *State, spe
 			if r.T.S == o.t.S {
 				returned = true
 			}
+			// ... or handed back inside a returned value (a wrapper struct that holds it)
+			if strings.Contains(r.T.S, o.t.S) || (r.Dyn != nil && strings.Contains(r.Dyn.T.S, o.t.S)) {
+				returned = true
+			}
 		}
 		if returned {
 			continue
